@@ -1,4 +1,4 @@
 SPECIFICATION Spec
 CONSTANT Geoms <- GeomsQuick
-INVARIANTS BinInOwnList OverlapComplete RunLemma BinRange
+INVARIANTS BinInOwnList OverlapComplete RunLemma BinRange TileLemma
 CHECK_DEADLOCK FALSE
